@@ -17,7 +17,7 @@ RULE = ("one evaluation = one phone string (token vs independent HMAC-SHA1), one
 ASSUMPTIONS = ["the three token constants are frozen copies of the pinned tree (data/reg_constants.json), not a second origin",
                "text values are valid unicode (no lone surrogates); nothing is sent anywhere (preview mode, audit hook)",
                "hmac/urllib.parse/cryptography are trusted"]
-REQUIRED = ["concurrent_token_rounds", "token_yields", "token_cases", "urlencode_cases", "encrypt_cases", "request_objects", "escaped_values"]
+REQUIRED = ["request_resends", "concurrent_token_rounds", "token_yields", "token_cases", "urlencode_cases", "encrypt_cases", "request_objects", "escaped_values"]
 
 DATA = os.path.join(os.path.dirname(os.path.dirname(os.path.dirname(os.path.abspath(__file__)))), "data")
 SAFE = set("ABCDEFGHIJKLMNOPQRSTUVWXYZabcdefghijklmnopqrstuvwxyz0123456789.")
@@ -245,6 +245,23 @@ def check_request_objects(acc, seed, n):
             if d.get("in") != national or str(d.get("cc")) != cc:
                 acc.violation("request-number-split", "cc/in parameters do not reproduce the phone number", w)
             acc.maxi("params_per_request", len(names))
+            # the same request object again (a retry), and once more after the application added a parameter: each sending is
+            # encrypted afresh and carries the parameters as they are at that moment
+            try:
+                for step in ("again", "after-addParam"):
+                    if step == "after-addParam":
+                        req.addParam("x_" + gen.s_from(r, gen.ALNUM, 4), gen_value(r))
+                    del captured[:]
+                    req.send(preview=True)
+                    host, path, params, preview = captured[-1]
+                    eph2, plain2 = decrypt_enc(priv, params[0][1])
+                    acc.count("request_resends")
+                    if eph2 in ephemerals:
+                        acc.violation("ephemeral-reused:resend", "sending the same %s request object %s reused an ephemeral key" % (kind, step), dict(w, step=step))
+                    ephemerals.add(eph2)
+                    judge_plain(acc, plain2, req.params, dict(w, step=step), kind + ":" + step)
+            except Exception as e:  # noqa
+                acc.violation("request-resend-raises:%s:%s" % (kind, type(e).__name__), "sending a %s request object a second time raised %r" % (kind, e), w)
             if i < 2:
                 acc.sample({"request": kind, "phone": phone, "param_names": names})
     finally:
